@@ -6,6 +6,8 @@
 pub(crate) mod stubs;
 #[cfg(all(kani, feature = "c14"))]
 mod c14;
+#[cfg(all(kani, feature = "c19"))]
+mod c19;
 #[cfg(all(kani, feature = "c25"))]
 mod c25;
 #[cfg(all(kani, feature = "c56"))]
